@@ -281,6 +281,10 @@ def _reads(M):
         select_by_tag=lambda: names(orm.select(p for p in P if T[2] in p.tags)),
         group_of_p2=lambda: nm(P[2].group),
         join_count=lambda: sorted(orm.select((g.title, orm.count(g.members)) for g in G)[:]),
+        # select_random answers from the identity map when MAX(id) is already known in this transaction: the names 30 seeded draws of one object give (every live person w.h.p.: 3..4 persons)
+        select_random_draws=lambda: (__import__('random').seed(3), sorted({nm(o) for k in range(30) for o in P.select_random(1)}))[1],
+        # with seed 2 the first identifier drawn out of 1..5 is 1: Person[1] is looked up in the identity map before any statement could flush the session
+        select_random_hands_out_live_objects=lambda: (__import__('random').seed(2), (lambda r: (len(r), all(o._status_ not in ('marked_to_delete', 'deleted', 'cancelled') for o in r)))(P.select_random(1)))[1],
     )
 
 
